@@ -85,6 +85,45 @@ def check_dynamic_edges(R, cg, dyn):
                             "; ".join(f"{a} -> {b}" for a, b in missing[:10]))
 
 
+def guided_cases(snap, bad_paths, cm):
+    import ast
+    keys = []
+    for b in bad_paths:
+        for fkey in b["path"]:
+            mod, _, fname = fkey.split("@")[0].rpartition(".")
+            if "." in mod:       # a method: module.Class
+                mod = mod.split(".")[0]
+            f = C.REPO / "skops" / "io" / (mod.replace(".", "/") + ".py")
+            if not f.exists():
+                continue
+            for node in ast.walk(ast.parse(f.read_text())):
+                if isinstance(node, (ast.FunctionDef, ast.AsyncFunctionDef)) and node.name == fname:
+                    for c in ast.walk(node):
+                        if isinstance(c, ast.Constant) and isinstance(c.value, str) and 0 < len(c.value) <= 40 and "\n" not in c.value and " " not in c.value \
+                                and c.value not in keys:
+                            keys.append(c.value)
+    out = []
+    J = lambda v: {"__class__": "str", "__module__": "builtins", "__loader__": "JsonNode", "content": json.dumps(v), "is_json": True}   # noqa: E731
+    for key in keys[:40]:
+        for shape in ("dict-key", "list", "str", "dict-value"):
+            k = len(cm)
+            cm.append(f"verif_cm_{k}")
+            name = f"verif_cm_{k}"
+            val = {"dict-key": {name: "1.0"}, "list": [name], "str": name, "dict-value": {"name": name, "module": name}}[shape]
+            child = {"__class__": "list", "__module__": "builtins", "__loader__": "ListNode", "__id__": 2, "content": [J(1)]}
+            root = {"__class__": "list", "__module__": "builtins", "__loader__": "ListNode", "__id__": 1, "protocol": snap["protocol"],
+                    "_skops_version": "0.0", "content": [child]}
+            for where in ("root", "child"):
+                sch = json.loads(json.dumps(root))
+                tgt = sch if where == "root" else sch["content"][0]
+                if key in tgt:
+                    continue
+                tgt[key] = val
+                out.append({"schema": sch, "members": [], "tspec": "empty", "tseed": 0, "show": "all", "malformed": False, "wellformed": True,
+                            "notes": [f"guided: {key!r} = {shape} at {where}"], "no_model": True})
+    return out
+
+
 def run(R, only_cases=None):
     R.trusted_base += ["Coq 8.16.1 kernel", "observation from outside: sys.addaudithook (import/open/os.*/subprocess/...), wrapped gettype/_import_obj/importlib.import_module, canary ledger"]
     R.assumptions += ["the theorem side is by construction (the model's inspection functions are pure and have no access to name resolution); what ties it to the code "
@@ -110,6 +149,13 @@ def run(R, only_cases=None):
                   "type": "numpy" if loader == "NdArrayNode" else "scipy", "file": "big.npy"}
             cases.append({"schema": st, "members": ["big.npy"], "big": {"big.npy": 48 * 2 ** 20}, "tspec": "empty", "tseed": 0, "show": "all",
                           "malformed": False, "wellformed": True, "notes": ["big-member probe"], "no_model": True})
+    if only_cases is None and cg is not None and cg.get("effectful_reachable"):
+        # the static theorem is about to fail: some function reachable before the verdict resolves names or touches files.
+        # Search guided by the broken obligation: the string constants of the functions on those paths are the archive keys
+        # they may read; plant fresh canary modules under each of them (at the root and in the first node below it)
+        guided = guided_cases(snap, cg["effectful_reachable"], cm)
+        R.notes["guided_search_cases"] = len(guided)
+        cases += guided
     make_canaries(scratch / "cm", len(cm) + 1)
     # (a) the model predicts the same verdicts (ties get_tree / audit to the code on these archives too)
     for c in cases:
